@@ -69,6 +69,7 @@ type gram struct {
 	names  map[string]bool
 	ids    map[int]bool
 	wordIx int // next reserved word to end a name with (all of them are visited in turn)
+	pool   []XField // fields of earlier messages of the document: declared again, word for word, by later messages
 }
 
 var goReservedWords = []string{"TEST",
@@ -228,7 +229,28 @@ func (g *gram) message(enums []XEnum) XMsg {
 	used := map[string]bool{}
 	for i := 0; i < nf; i++ {
 		f := XField{Name: B(g.fieldName(used)), Enum: B{}, Ext: i >= extFrom}
-		switch g.r.Intn(8) {
+		// the same declaration (name, type, enum, length) as a field of an earlier message - target_system, time_usec ... are
+		// declared by dozens of messages - here before, there after <extensions/>, or the other way round
+		reused := false
+		if len(g.pool) > 0 && g.r.Intn(3) == 0 {
+			pf := g.pool[g.r.Intn(len(g.pool))]
+			k := strings.ToLower(strings.ReplaceAll(string(pf.Name), "_", ""))
+			visible := len(pf.Enum) == 0
+			for _, e := range enums {
+				visible = visible || string(e.Name) == string(pf.Enum)
+			}
+			if !used[k] && pf.Type != "uint8_t_mavlink_version" && visible {
+				used[k] = true
+				f.Name, f.Type, f.Arr, f.Enum = pf.Name, pf.Type, pf.Arr, pf.Enum
+				reused = true
+			}
+		}
+		sel := g.r.Intn(8)
+		if reused {
+			sel = -1
+		}
+		switch sel {
+		case -1:
 		case 0:
 			f.Type, f.Arr = "char", 1+g.r.Intn(20)
 		case 1:
@@ -264,6 +286,7 @@ func (g *gram) message(enums []XEnum) XMsg {
 		size += primSize[f.Type] * n
 		m.Fields = append(m.Fields, f)
 	}
+	g.pool = append(g.pool, m.Fields...)
 	return m
 }
 
@@ -361,6 +384,7 @@ func genDoc(r *rand.Rand, idx int) XDoc {
 	// enums are visible to every file of the merged dialect: generate from the deepest file upwards
 	var all []XEnum
 	for f := nfiles - 1; f >= 0; f-- {
+		nDeeper := len(all)
 		ne := r.Intn(3)
 		for e := 0; e < ne; e++ {
 			en := g.enum()
@@ -368,8 +392,19 @@ func genDoc(r *rand.Rand, idx int) XDoc {
 			all = append(all, en)
 		}
 		// an enum extended in an including file (merged by name)
-		if f < nfiles-1 && len(all) > 0 && r.Intn(3) == 0 {
+		if f < nfiles-1 && len(all) > 0 && r.Intn(2) == 0 {
 			base := all[r.Intn(len(all))]
+			// every other time a bitmask of a DEEPER file when there is one: flags added by an including file, above all
+			// the flags the included file knows
+			var bms []XEnum
+			for _, e := range all[:nDeeper] {
+				if e.Bitmask {
+					bms = append(bms, e)
+				}
+			}
+			if len(bms) > 0 && r.Intn(2) == 0 {
+				base = bms[r.Intn(len(bms))]
+			}
 			ext := XEnum{Name: base.Name, Bitmask: base.Bitmask}
 			extVal := uint64(1<<20 + r.Intn(1000)*2 + 1)
 			ext.Entries = []XEntry{{Name: B(g.upperName(string(base.Name) + "_X")), Text: B(fmt.Sprintf("%d", extVal)), V: extVal}}
